@@ -63,4 +63,6 @@ void _ZdlPv(void *p){ __vf_free(p); }
 void _ZdaPv(void *p){ __vf_free(p); }
 void _ZdlPvm(void *p, uint64_t n){ __vf_free(p); }
 uint32_t __vf_atexit(void *f){ return 0; }   /* destructors of statics at process exit are outside every claim */
+/* end of an automatic object's lifetime: its bytes become arbitrary (models stack reuse; a dangling read sees garbage) */
+void __vf_lifetime_end(void *p, uint64_t n){ if (n != (uint64_t)-1 && n > 0 && n <= 256) __CPROVER_havoc_slice(p, n); }
 void *__vf_memcpy_loop(void *d, const void *s, size_t n){ for (size_t i = 0; i < n; i++) ((char*)d)[i] = ((const char*)s)[i]; return d; }
